@@ -192,7 +192,7 @@ def check_props(pid):
 
 
 # property -> translated units (harness/pytrans.py:UNITS) whose equivalence proofs belong to it
-GEN_UNITS = {'C01': ['C01_validate'], 'C04': ['C04_match', 'C04_complete'], 'C06': ['C06_rule'], 'C11': ['C11_index'], 'C15': ['C15_limits'], 'C19': ['C19_consts'], 'C20': ['C20_dedupe']}
+GEN_UNITS = {'C01': ['C01_validate'], 'C04': ['C04_match', 'C04_complete', 'C04_prefixlen'], 'C06': ['C06_rule'], 'C11': ['C11_index'], 'C15': ['C15_limits'], 'C19': ['C19_consts'], 'C20': ['C20_dedupe']}
 
 
 def prims_selftest(n=240, seed=7):
